@@ -503,7 +503,20 @@ var endpoints = []*endpoint{
 
 // ---------------------------------------------------------------- the enumerated table
 
-var apiStatuses = []int{200, 400, 401, 403, 404, 405, 409, 410, 412, 414, 429, 500, 501, 502, 503, 504, 509}
+// 200, then non-200 statuses below 400 that net/http's client hands to the caller unchanged (2xx other
+// than 200; 300 and 304, which it never follows; 301, 302 and 307 answered without a Location header,
+// which it cannot follow and returns as they are), then the client and server errors.
+var apiStatuses = []int{200, 201, 202, 203, 204, 206, 300, 301, 302, 304, 307, 400, 401, 403, 404, 405, 409, 410, 412, 414, 429, 500, 501, 502, 503, 504, 509}
+
+// call forms: how the Datasource under test is configured
+const (
+	formMethod    = iota // method on a Datasource with its own Client
+	formPackage          // package-level function, i.e. osmapi.DefaultDatasource
+	formNilClient        // method on a Datasource whose Client is nil: it inherits osmapi.DefaultDatasource.Client
+	numForms
+)
+
+var formName = []string{"method form, own Client", "package-level form", "method form, Client nil (inherits DefaultDatasource.Client)"}
 
 // count variants: own elements / elements of other kinds in the same document
 var countVariants = []struct {
@@ -521,7 +534,7 @@ type c20cell struct {
 	ep, form, st, cv, lim, base int
 }
 
-func numCells() int { return len(endpoints) * 2 * len(apiStatuses) * len(countVariants) * 4 * 2 }
+func numCells() int { return len(endpoints) * numForms * len(apiStatuses) * len(countVariants) * 4 * 2 }
 
 func cellOf(i int) c20cell {
 	var c c20cell
@@ -533,8 +546,8 @@ func cellOf(i int) c20cell {
 	i /= len(countVariants)
 	c.st = i % len(apiStatuses)
 	i /= len(apiStatuses)
-	c.form = i % 2
-	i /= 2
+	c.form = i % numForms
+	i /= numForms
 	c.ep = i
 	return c
 }
@@ -696,15 +709,26 @@ func execCell(root context.Context, idx int, args [][]*apiArgs) *cellRun {
 	}
 
 	var ds *osmapi.Datasource
-	if c.form == 0 {
+	// DefaultDatasource is process-global: whatever a cell changes is put back when the cell ends, also on a panic
+	dd := osmapi.DefaultDatasource
+	oldL, oldB, oldC := dd.Limiter, dd.BaseURL, dd.Client
+	defer func() { dd.Limiter, dd.BaseURL, dd.Client = oldL, oldB, oldC }()
+	switch c.form {
+	case formMethod:
 		ds = &osmapi.Datasource{BaseURL: cr.base, Client: client}
 		if cr.lim != nil {
 			ds.Limiter = cr.lim
 		}
-	} else {
-		dd := osmapi.DefaultDatasource
-		oldL, oldB, oldC := dd.Limiter, dd.BaseURL, dd.Client
-		defer func() { dd.Limiter, dd.BaseURL, dd.Client = oldL, oldB, oldC }()
+	case formNilClient:
+		// the datasource has a limiter and a base URL of its own but no client: requests go through the
+		// default datasource's client, which is the simulated transport for the duration of this call
+		ds = &osmapi.Datasource{BaseURL: cr.base}
+		if cr.lim != nil {
+			ds.Limiter = cr.lim
+		}
+		dd.Client = client
+		dd.Limiter = nil
+	case formPackage:
 		dd.Client = client
 		dd.Limiter = nil
 		if cr.lim != nil {
@@ -774,11 +798,8 @@ func sameBBox(got, want string) (same bool, rounded bool) {
 func judgeCell(o *kit.Outcome, cr *cellRun) (violated bool) {
 	c, ep, a := cr.cell, cr.ep, cr.a
 	st := apiStatuses[c.st]
-	form := "method"
-	if c.form == 1 {
-		form = "package-level"
-	}
-	where := fmt.Sprintf("[[cell=%d]] %s (%s form), status %d, response with %s elements, %s, base URL %q, args %v", cr.idx, ep.name, form, st, countVariants[c.cv].name, limName[c.lim], cr.base, a.describe(ep))
+	form := formName[c.form]
+	where := fmt.Sprintf("[[cell=%d]] %s (%s), status %d, response with %s elements, %s, base URL %q, args %v", cr.idx, ep.name, form, st, countVariants[c.cv].name, limName[c.lim], cr.base, a.describe(ep))
 	viol := func(class, f string, x ...interface{}) {
 		violated = true
 		for _, v := range o.Violations {
@@ -788,6 +809,13 @@ func judgeCell(o *kit.Outcome, cr *cellRun) (violated bool) {
 			}
 		}
 		o.Violate(class, "%s: %s", where, fmt.Sprintf(f, x...))
+	}
+	waitCount := func(n int) {
+		if n == 0 {
+			viol("C20/limiter-not-waited-on/"+ep.name, "the datasource has a Limiter but Wait was never called")
+		} else {
+			viol("C20/limiter-wait-count/"+ep.name, "Wait was called %d times, want once", n)
+		}
 	}
 	if cr.crash != "" {
 		viol("C20/crash/"+ep.name, "panic in the calling goroutine: %s", cr.crash)
@@ -810,7 +838,7 @@ func judgeCell(o *kit.Outcome, cr *cellRun) (violated bool) {
 		name := []string{"", "", "limiter-refused", "ctx-cancelled-in-limiter"}[c.lim]
 		o.Fault(name)
 		if cr.lim.calls != 1 {
-			viol("C20/limiter-wait-count/"+ep.name, "Wait was called %d times, want once", cr.lim.calls)
+			waitCount(cr.lim.calls)
 		}
 		if len(reqs) != 0 {
 			viol("C20/request-after-"+name+"/"+ep.name, "%d request(s) reached the server although Wait returned %v: %s", len(reqs), cr.lim.returned, reqs[0].url)
@@ -850,12 +878,18 @@ func judgeCell(o *kit.Outcome, cr *cellRun) (violated bool) {
 	if rq.ctxOK {
 		o.Probe("request-carried-the-callers-context")
 	}
+	if c.form == formNilClient {
+		o.Probe("request-through-inherited-default-client")
+		if c.lim == limGrant && cr.lim.calls == 1 {
+			o.Probe("limiter-waited-with-inherited-client")
+		}
+	}
 	// limiter before the request, on the simulated clock
 	if c.lim == limGrant {
 		o.Fault("limiter-delayed")
 		switch {
 		case cr.lim.calls != 1:
-			viol("C20/limiter-wait-count/"+ep.name, "Wait was called %d times, want once", cr.lim.calls)
+			waitCount(cr.lim.calls)
 		case rq.seq < cr.lim.endSeq || rq.t < cr.lim.start+int64(cr.d):
 			viol("C20/request-before-limiter-granted/"+ep.name, "the request arrived at simulated +%v, Wait (delay %v) returned at +%v", time.Duration(rq.t-cr.lim.start), cr.d, time.Duration(cr.lim.end-cr.lim.start))
 		case !cr.lim.ctxOK:
@@ -935,6 +969,9 @@ func judgeCell(o *kit.Outcome, cr *cellRun) (violated bool) {
 			if is && !ok {
 				got = fmt.Sprintf("UnexpectedStatusCodeError{Code:%d}", e.Code)
 			}
+		}
+		if ok && st < 400 {
+			o.Probe("non-200-status-below-400-rejected")
 		}
 		if !ok {
 			got = strings.TrimPrefix(got, "*osmapi.")
@@ -1031,6 +1068,7 @@ func runC20(t *testing.T, r *kit.Run) {
 		}
 		if judgeCell(o, cr) && bad == nil {
 			d := cr.a.describe(cr.ep)
+			d["call_form"] = formName[cr.cell.form]
 			d["cell"], d["status"], d["limiter"], d["elements"], d["base_url"] = cr.idx, apiStatuses[cr.cell.st], limName[cr.cell.lim], countVariants[cr.cell.cv].name, cr.base
 			bad = d
 		}
